@@ -86,11 +86,17 @@ def cmd_run(sid, tier='quick'):
                 f.write(ev_saved)
     lines = [l for l in outc.splitlines() if l.startswith(('VIOLATION', 'BROKEN', 'KNOWN-FINDING', 'OK '))]
     sigs = []
+    with_input = False
+    broken = set()
     for l in lines:
         if l.startswith('VIOLATION') and 'replay=' in l:
             path = l.split('replay=')[1].split()[0]
             try:
                 rp = json.load(open(path))
+                if rp.get('kind') == 'failing-input' or rp.get('signature'):
+                    with_input = True
+                for b in rp.get('broken_obligations', []):
+                    broken.add(b.get('name', '?'))
                 sigs.append(rp.get('signature') or ('no-failing-input-found: ' + '; '.join(
                     b['name'] for b in rp.get('broken_obligations', []))))
             except Exception:
@@ -98,6 +104,7 @@ def cmd_run(sid, tier='quick'):
     meta.setdefault('runs', []).append({
         'when': time.strftime('%Y-%m-%d %H:%M:%S'), 'tier': tier, 'check_rc': rcc, 'wall_s': round(time.time() - t0, 1),
         'lines': [l[:300] for l in lines][:12], 'signatures': sorted(set(sigs)),
+        'failing_input_found': with_input, 'broken_obligations': sorted(broken),
         'ran': 'git -C /repo apply seeded/%s/patch.diff; ./check %s --tier %s; git -C /repo checkout -- .' % (sid, prop, tier)})
     meta['detected'] = rcc == 1 and any(l.startswith('VIOLATION') for l in lines)
     with open(os.path.join(d, 'meta.json'), 'w') as f:
@@ -114,8 +121,12 @@ def cmd_table():
             continue
         m = json.load(open(mp))
         last = (m.get('runs') or [{}])[-1]
-        print('| %s | %s | %s | %s | %s |' % (sid, m['property'], m['needs'][:80], 'caught' if m.get('detected') else 'MISSED',
-                                             ', '.join(last.get('signatures', []))[:120]))
+        how = 'MISSED'
+        if m.get('detected'):
+            how = 'failing input' if last.get('failing_input_found', True) else 'broken obligation only'
+        print('| %s | %s | %s | %s | %s | %s |' % (sid, m['property'], m['needs'][:80], how,
+                                                  ', '.join(last.get('signatures', []))[:100],
+                                                  ', '.join(last.get('broken_obligations', []))[:80]))
 
 
 if __name__ == '__main__':
